@@ -960,7 +960,7 @@ func (z *ZodRecord[T, R]) validateValue(value any, schema any, ctx *core.ParseCo
 
 	// Build arguments for Parse call.
 	args := []reflect.Value{reflect.ValueOf(value)}
-	if methodType.NumIn() > 1 && methodType.In(1).String() == "*core.ParseContext" {
+	if acceptsParseContext(methodType) {
 		// Add context parameter if expected.
 		args = append(args, reflect.ValueOf(ctx))
 	}
